@@ -40,7 +40,7 @@ def make_trait_def(name):
 def new_model(uid):
     return {"uid": uid, "value": 0, "ro": UNSET, "scratch": 7, "tags": [], "stags": [],
             "grid": [], "table": {}, "group": set(), "child": None, "friend": None,
-            "children": []}
+            "children": [], "members": set()}
 
 
 class Prop:
@@ -148,9 +148,12 @@ class Prop:
         if x < 0.88:
             return {"k": "children", "o": o,
                     "vs": [r.randrange(npool) for _ in range(r.randint(0, 3))]}
-        if x < 0.94:
+        if x < 0.92:
             return {"k": "children_append", "o": o,
                     "v": r.randrange(npool) if r.random() > invalid else "bad"}
+        if x < 0.96:
+            return {"k": r.choice(["members_add", "members_add", "members_discard"]), "o": o,
+                    "v": r.randrange(npool)}
         return {"k": "bump", "o": o}
 
     # ------------------------------------------------------------------ execution
@@ -227,7 +230,8 @@ class Prop:
                 {a: list(b) for a, b in d.get("table", {}).items()},
                 set(d.get("group", ())),
                 getattr(d.get("child"), "uid", None), getattr(d.get("friend"), "uid", None),
-                [c.uid for c in d.get("children", ())])
+                [c.uid for c in d.get("children", ())],
+                sorted(c.uid for c in d.get("members", ())))
 
     @staticmethod
     def model_snapshot(m):
@@ -240,7 +244,7 @@ class Prop:
         return (m["value"], None if m["ro"] is UNSET else ("set", m["ro"]),
                 list(m["tags"]), list(m["stags"]), [list(r) for r in m["grid"]],
                 {a: list(b) for a, b in m["table"].items()}, set(m["group"]),
-                u(m["child"]), u(m["friend"]), list(m["children"]))
+                u(m["child"]), u(m["friend"]), list(m["children"]), sorted(m["members"]))
 
     def check_state(self, x, m, what, step):
         got = self.snapshot(x)
@@ -248,7 +252,7 @@ class Prop:
         self.env.oracle_evals += 1
         if got != want:
             names = ["value", "ro", "tags", "stags", "grid", "table", "group", "child", "friend",
-                     "children"]
+                     "children", "members"]
             diff = [(n, a, b) for n, a, b in zip(names, got, want) if a != b]
             raise Violation("C14.state", "%s: R%d holds %s" % (
                 what, m["uid"], "; ".join("%s=%r (model %r)" % d for d in diff[:3])), step)
@@ -304,9 +308,12 @@ class Prop:
                 if c is not new[j]:
                     raise Violation("C14.copy-identity", "%s: R%d.children do not point into the "
                                     "copied pool" % (how, m["uid"]), step)
+            if {id(c) for c in n.__dict__.get("members", ())} != {id(new[j]) for j in m["members"]}:
+                raise Violation("C14.copy-identity", "%s: R%d.members do not point into the "
+                                "copied pool" % (how, m["uid"]), step)
 
     def no_shared_containers(self, o, n, how, step):
-        for name in ("tags", "stags", "grid", "table", "group", "children"):
+        for name in ("tags", "stags", "grid", "table", "group", "children", "members"):
             a, b = o.__dict__.get(name), n.__dict__.get(name)
             if a is not None and a is b:
                 raise Violation("C14.shared-container", "%s: R%d.%s is the same container object "
@@ -344,7 +351,7 @@ class Prop:
         self.env.oracle_evals += 1
         if got != want:
             names = ["value", "ro", "tags", "stags", "grid", "table", "group", "child", "friend",
-                     "children"]
+                     "children", "members"]
             diff = [(n, a, b) for n, a, b in zip(names, got, want) if a != b]
             raise Violation("C14.state", "%s: copy of R%d holds %s" % (
                 mode, m["uid"], "; ".join("%s=%r (model %r)" % d for d in diff[:3])), step)
@@ -362,6 +369,15 @@ class Prop:
         if ch is not None and mode != "copy" and c.__dict__.get("child") is ch and ch is not x:
             raise Violation("C14.copy-identity", "%s: Instance link (copy='deep' metadata) still "
                             "points at the original child" % mode, step)
+        if mode in ("clone_deep", "clone_none", "deepcopy"):
+            # Set carries copy='deep': its members are copied with the set (a member
+            # that is the object itself becomes the copy)
+            orig = x.__dict__.get("members") or ()
+            for el in c.__dict__.get("members") or ():
+                if any(el is o2 for o2 in orig):
+                    raise Violation("C14.copy-identity", "%s: a member of the copied Set is the "
+                                    "original's member object (R%d), not a copy"
+                                    % (mode, el.uid), step)
         # liveness battery on the copy; the originals must not move
         before = [self.snapshot(p) for p in pool]
         cm = self.clone_model(m)
@@ -378,7 +394,7 @@ class Prop:
                 "grid": [list(r) for r in m["grid"]],
                 "table": {a: list(b) for a, b in m["table"].items()},
                 "group": set(m["group"]), "child": m["child"], "friend": m["friend"],
-                "children": list(m["children"])}
+                "children": list(m["children"]), "members": set(m["members"])}
 
     # the liveness battery -------------------------------------------------------------
     def battery(self, pool, models, step):
@@ -531,6 +547,14 @@ class Prop:
                 v = op["v"] % len(pool)
                 _, e = sut(x.children.append, pool[v])
                 m["children"].append(v)
+        elif k in ("members_add", "members_discard"):
+            v = op["v"] % len(pool)
+            if k == "members_add":
+                _, e = sut(x.members.add, pool[v])
+                m["members"].add(v)
+            else:
+                _, e = sut(x.members.discard, pool[v])
+                m["members"].discard(v)
         elif k == "bump":
             if not m["children"]:
                 return
